@@ -164,6 +164,10 @@ def static_type_problem(tbl, df, be):
                 ok = False
         else:
             ok = _family(et) == _family(st)
+            if not ok and _family(st) == "float" and _family(et) == "int" and be == "sqlite":
+                # D17: SQLite is dynamically typed: an integral value of an untyped expression (CASE with an integer
+                # branch, ROUND, ...) comes back as INTEGER although the expression is a float expression
+                ok = True
             if not ok and _family(st) == "Bool" and _family(et) == "int":
                 # D17: SQLite has no boolean storage class; an untyped boolean expression comes back as 0/1
                 vals = set(df.get_column(c.name).drop_nulls().to_list())
